@@ -93,3 +93,44 @@ package elfexec
 //@     invariant forall i int :: 0 <= i && i < $i && phsel(elem_addr(phdrs, i), mapOff, mapSz) ==>
 //@       exists k int :: 0 <= k && k < len(headers) && headers[k] == elem_addr(phdrs, i)
 //@     decreases len(phdrs) - $i
+
+// Loader model (an assumption, echoed in the evidence): segment s of the binary is a
+// PT_LOAD segment with file bits, congruent file offset and address, no 64-bit wrap;
+// the object is loaded at a page-aligned bias B in user space; the runtime mapping
+// [start,limit) at file offset `offset` is a page-granular window of the file-backed
+// image of s, so that start - offset = B + s.Vaddr - s.Off. The bias differs from
+// the segment's file offset (otherwise kernel heuristic k1 fires, see DESIGN).
+// Then: (i) s is among the headers selected for the mapping; (ii) for every sampled
+// address inside s's memory image the header chosen by file offset is s or an error,
+// never another header; (iii) the computed base is B, so addr - base is the
+// link-time address.
+//@ lemma loader_correct arith bv
+//@   vars fh *elf.FileHeader, phdrs []elf.ProgHeader, s int, B uint64, start uint64, limit uint64, offset uint64, addr uint64
+//@   assume fh != nil && (fh.Type == elf.ET_DYN || fh.Type == elf.ET_EXEC)
+//@   assume 0 <= s && s < len(phdrs)
+//@   assume phdrs[s].Type == elf.PT_LOAD && phdrs[s].Filesz != 0 && phdrs[s].Filesz <= phdrs[s].Memsz
+//@   assume phdrs[s].Off & 4095 == phdrs[s].Vaddr & 4095
+//@   assume phdrs[s].Off + phdrs[s].Memsz >= phdrs[s].Off && phdrs[s].Off + phdrs[s].Memsz + 8192 >= phdrs[s].Off + phdrs[s].Memsz
+//@   assume phdrs[s].Vaddr + phdrs[s].Memsz >= phdrs[s].Vaddr
+//@   assume B & 4095 == 0 && B != phdrs[s].Off
+//@   assume offset & 4095 == 0 && offset >= phdrs[s].Off - (phdrs[s].Off & 4095) && offset < phdrs[s].Off + phdrs[s].Filesz
+//@   assume limit > start && (limit - start) & 4095 == 0 && start > 0 && limit < 0x8000000000000000
+//@   assume offset + (limit - start) >= offset && offset + (limit - start) < phdrs[s].Off + phdrs[s].Filesz + 4096
+//@   assume start - offset == B + phdrs[s].Vaddr - phdrs[s].Off
+//@   conclude size: limit - start >= 4096
+//@   conclude c3: offset < phdrs[s].Off + phdrs[s].Memsz
+//@   conclude c4: phdrs[s].Off < offset + (limit - start)
+//@   conclude c5: !(offset < ite(phdrs[s].Off > (phdrs[s].Vaddr & 4095), phdrs[s].Off - (phdrs[s].Vaddr & 4095), 0))
+//@   conclude c6: !(offset > phdrs[s].Off && phdrs[s].Off + phdrs[s].Memsz < offset + 4096
+//@       && offset + (limit - start) >= phdrs[s].Off + phdrs[s].Memsz + 4096)
+//@   conclude selected: phsel(elem_addr(phdrs, s), offset, limit - start)
+//@   call headers := ProgramHeadersForMapping(phdrs, offset, limit - start)
+//@   conclude member: exists k int :: 0 <= k && k < len(headers) && headers[k] == elem_addr(phdrs, s)
+//@   assume start <= addr && addr < limit && addr - B >= phdrs[s].Vaddr && addr - B < phdrs[s].Vaddr + phdrs[s].Memsz
+//@   conclude fo_eq: addr - start + offset == (addr - B - phdrs[s].Vaddr) + phdrs[s].Off
+//@   conclude fo_rng: addr - B - phdrs[s].Vaddr < phdrs[s].Memsz
+//@   conclude fo: hmatch(elem_addr(phdrs, s), addr - start + offset)
+//@   call h, err := HeaderForFileOffset(headers, addr - start + offset)
+//@   conclude chosen: err == nil ==> h == elem_addr(phdrs, s)
+//@   call base, err2 := GetBase(fh, elem_addr(phdrs, s), nil, start, limit, offset)
+//@   conclude base: err2 == nil && base == B
